@@ -14,7 +14,7 @@ Import ListNotations.
 Require Import Fggs.Model.Semiring Fggs.Model.Solve Fggs.Model.MultiSolve.
 Require Import Fggs.Proofs.SolveElim Fggs.Proofs.SolveRefine Fggs.Proofs.SolveBlock
                Fggs.Proofs.SolveMatInst Fggs.Proofs.SolveStar Fggs.Proofs.MultiMV
-               Fggs.Proofs.MultiSolveSem Fggs.Proofs.MultiSolveLU.
+               Fggs.Proofs.MultiSolveSem Fggs.Proofs.MultiSolveLU Fggs.Proofs.MultiOrder.
 
 (** * flat indices *)
 Section Flat.
@@ -366,6 +366,122 @@ Theorem multi_solve_never_13 (eqb : S -> S -> bool) order tr a b :
 Proof.
   intros Hrefl NDd ND Henum NDa NDb. unfold vec_all2. apply forallb_forall. intros i Hi.
   apply in_seq in Hi. rewrite multi_solve_is_dense_solve by (try assumption; lia). apply Hrefl.
+Qed.
+
+(** * the order the code uses *)
+Lemma get2_zeros2_any n m p q : get2 o (zeros2 o n m) p q = zero o.
+Proof.
+  destruct (Nat.ltb_spec p n) as [Hp|Hp]; [destruct (Nat.ltb_spec q m) as [Hq|Hq]|].
+  - apply get2_zeros2; assumption.
+  - unfold get2, zeros2, tab2.
+    rewrite (nth_map_seq (fun i => map (fun _ => zero o) (seq 0 m)) 0 n p []) by exact Hp.
+    apply nth_overflow. rewrite map_length, seq_length. exact Hq.
+  - unfold get2, zeros2, tab2. rewrite (nth_overflow _ []) by (rewrite map_length, seq_length; exact Hp).
+    destruct q; reflexivity.
+Qed.
+
+(** no block at all in [a] ([_order_nonterminals] returns [] then): the result is [b] *)
+Theorem multi_solve_empty tr b :
+  NoDup (map fst b) ->
+  least_spec o (total d) (assemble2 o d tr []) (assemble1 o d b)
+             (get1 o (assemble1 o d (multi_solve_model o d [] tr [] b))).
+Proof.
+  intros NDb.
+  change (multi_solve_model o d [] tr [] b) with (flat_b b).
+  assert (HX : forall i, i < total d -> get1 o (assemble1 o d (flat_b b)) i = get1 o (assemble1 o d b) i).
+  { intros i Hi. unfold assemble1. rewrite !get1_tab1 by exact Hi.
+    destruct (locate d i) as [x p]. unfold getv. rewrite lookup1_flat_b by exact NDb. reflexivity. }
+  assert (HA : forall i j, i < total d -> j < total d -> get2 o (assemble2 o d tr []) i j = zero o).
+  { intros i j Hi Hj.
+    assert (G : forall i j, i < total d -> j < total d -> get2 o (assemble2g o d d []) i j = zero o).
+    { intros i' j' Hi' Hj'. unfold assemble2g. rewrite get2_tab2 by assumption.
+      destruct (locate d i') as [x p]. destruct (locate d j') as [y q].
+      unfold getm. cbn [lookup2]. apply get2_zeros2_any. }
+    unfold assemble2. destruct tr; [|apply G; assumption].
+    unfold transpose_model. rewrite get2_tab2 by assumption. apply G; assumption. }
+  assert (Hsum : forall (y : nat -> S) i, i < total d ->
+            sum_n o (total d) (fun j => get2 o (assemble2 o d tr []) i j ⊗ y j) = zero o).
+  { intros y i Hi. apply (sum_n_zero o Hring). intros j Hj. rewrite HA by assumption. ring. }
+  split.
+  - intros i Hi. rewrite Hsum by exact Hi. rewrite HX by exact Hi. ring.
+  - intros Y HY i Hi. specialize (HY i Hi). rewrite Hsum in HY by exact Hi. rewrite HX by exact Hi.
+    replace (zero o ⊕ get1 o (assemble1 o d b) i) with (get1 o (assemble1 o d b) i) in HY by ring.
+    exact HY.
+Qed.
+
+(** with the elimination order computed by (the model of) [_order_nonterminals], whatever the
+    iteration order of Python's sets *)
+Theorem multi_solve_code_order (iter : list key -> list key) tr a b l :
+  (forall s x, In x (iter s) -> In x s) -> (forall s x, In x s -> In x (iter s)) ->
+  (forall s, NoDup s -> NoDup (iter s)) ->
+  NoDup (map fst d) -> NoDup (map fst a) -> NoDup (map fst b) ->
+  (forall e, In e (map fst a) -> In (snd e) (map fst d)) ->
+  order_nonterminals_model iter (map fst a) (map fst d) = Some l ->
+  least_spec o (total d) (assemble2 o d tr a) (assemble1 o d b)
+             (get1 o (assemble1 o d (multi_solve_model o d l tr a b))).
+Proof.
+  intros I1 I2 I3 NDd NDa NDb Hk Hl.
+  destruct a as [|e a'].
+  - cbn in Hl. injection Hl as <-. apply multi_solve_empty. exact NDb.
+  - destruct (order_model_enumerates iter I1 I2 I3 (map fst (e :: a')) (map fst d) l NDd Hk
+                ltac:(discriminate) Hl) as [NDl Henum].
+    apply multi_solve_least; assumption.
+Qed.
+
+(** * the least-solution property read block by block (the form used by C02's [linear]) *)
+Definition block_sol (tr : bool) (a : @mt2 S) (b : @mt1 S) (xs : key -> nat -> S) : Prop :=
+  forall n p, In n (map fst d) -> p < dim d n ->
+    xs n p = sumS o nat (map fst d)
+               (fun m => sum_n o (dim d m) (fun q => blockA o d tr a n m p q ⊗ xs m q))
+             ⊕ semb o d b n p.
+Definition block_presol (tr : bool) (a : @mt2 S) (b : @mt1 S) (ys : key -> nat -> S) : Prop :=
+  forall n p, In n (map fst d) -> p < dim d n ->
+    le o (sumS o nat (map fst d)
+            (fun m => sum_n o (dim d m) (fun q => blockA o d tr a n m p q ⊗ ys m q))
+          ⊕ semb o d b n p) (ys n p).
+
+Lemma row_regroup tr a b (Xd : nat -> S) n p :
+  NoDup (map fst d) -> In n (map fst d) -> p < dim d n ->
+  sum_n o (total d) (fun J => get2 o (assemble2 o d tr a) (offset d n + p) J ⊗ Xd J)
+  ⊕ get1 o (assemble1 o d b) (offset d n + p)
+  = sumS o nat (map fst d)
+      (fun m => sum_n o (dim d m) (fun q => blockA o d tr a n m p q ⊗ Xd (offset d m + q)))
+    ⊕ semb o d b n p.
+Proof.
+  intros NDd Hn Hp. rewrite (assemble1_get o d b n p Hn Hp). f_equal.
+  rewrite sum_n_sumS, (sum_total o Hring d _ NDd).
+  apply sumS_ext. intros m Hm. rewrite sum_n_sumS. apply sumS_ext. intros q Hq. apply in_seq in Hq.
+  rewrite (assemble2_get o d tr a n m p q) by (try assumption; lia). reflexivity.
+Qed.
+
+Theorem block_least_of_dense tr a b (sol : @mt1 S) :
+  NoDup (map fst d) ->
+  least_spec o (total d) (assemble2 o d tr a) (assemble1 o d b) (get1 o (assemble1 o d sol)) ->
+  block_sol tr a b (semb o d sol)
+  /\ forall ys, block_presol tr a b ys ->
+       forall n p, In n (map fst d) -> p < dim d n -> le o (semb o d sol n p) (ys n p).
+Proof.
+  intros NDd [Hs Hl]. split.
+  - intros n p Hn Hp. rewrite <- (assemble1_get o d sol n p Hn Hp).
+    rewrite (Hs (offset d n + p) (offset_lt d n p Hn Hp)).
+    rewrite (row_regroup tr a b _ n p NDd Hn Hp). f_equal.
+    apply sumS_ext. intros m Hm. rewrite !sum_n_sumS. apply sumS_ext. intros q Hq. apply in_seq in Hq.
+    rewrite (assemble1_get o d sol m q) by (try assumption; lia). reflexivity.
+  - intros ys Hy n p Hn Hp.
+    set (Y := fun i => ys (fst (locate d i)) (snd (locate d i))).
+    assert (HY : forall m q, In m (map fst d) -> q < dim d m -> Y (offset d m + q) = ys m q).
+    { intros m q Hm Hq. unfold Y. rewrite (locate_offset d m q Hm Hq). reflexivity. }
+    rewrite <- (assemble1_get o d sol n p Hn Hp). rewrite <- (HY n p Hn Hp).
+    apply Hl; [|apply offset_lt; assumption].
+    intros i Hi. destruct (locate_spec d i NDd Hi) as (Hx & Hq & Ei).
+    set (x := fst (locate d i)) in *. set (q := snd (locate d i)) in *.
+    rewrite Ei. rewrite (row_regroup tr a b Y x q NDd Hx Hq). rewrite (HY x q Hx Hq).
+    rewrite (sumS_ext o nat (map fst d)
+               (fun m => sum_n o (dim d m) (fun q0 => blockA o d tr a x m q q0 ⊗ Y (offset d m + q0)))
+               (fun m => sum_n o (dim d m) (fun q0 => blockA o d tr a x m q q0 ⊗ ys m q0))).
+    + apply Hy; assumption.
+    + intros m Hm. rewrite !sum_n_sumS. apply sumS_ext. intros q0 Hq0. apply in_seq in Hq0.
+      rewrite HY by (try assumption; lia). reflexivity.
 Qed.
 
 End Dense.
